@@ -2415,3 +2415,727 @@ func regOptsIndependent(c *Ctx, p *Prog) {
 	sort.Strings(probs)
 	r.Check(len(probs) == 0, "R17.5", "regopts:independent", "-", fmt.Sprintf("each setting of the registration pack is written by one option constructor only (%d options)", n), strings.Join(probs, "; ")+": what a registration does then depends on the order of its options (a later option silently cancels an earlier one)")
 }
+
+// elementsSamePrinter: a list writer renders every element of its list with the same element printer. For every
+// function of the print tree with a slice parameter, the package-internal callees that receive an element of that
+// parameter (z[0], z[i], the range value) form a single function: the first element and the following ones cannot
+// be formatted differently.
+func elementsSamePrinter(c *Ctx, p *Prog, m *Model, rule string) {
+	r := c.R
+	tree := printTree(p, m)
+	var fns []*ssa.Function
+	for fn := range tree {
+		fns = append(fns, fn)
+	}
+	sort.Slice(fns, func(i, j int) bool { return shortName(fns[i]) < shortName(fns[j]) })
+	n := 0
+	for _, fn := range fns {
+		for _, prm := range fn.Params {
+			if _, ok := prm.Type().Underlying().(*types.Slice); !ok {
+				continue
+			}
+			isElem := func(v ssa.Value) bool {
+				v = strip(v)
+				if u, ok := v.(*ssa.UnOp); ok && u.Op == token.MUL {
+					if ia, ok := u.X.(*ssa.IndexAddr); ok && ia.X == ssa.Value(prm) {
+						return true
+					}
+				}
+				return false
+			}
+			callees := map[*ssa.Function][]string{}
+			for _, cs := range callsIn(fn) {
+				cal := calleeOf(cs)
+				if cal == nil || cal.Pkg != p.Slog {
+					continue
+				}
+				for _, a := range cs.Common().Args {
+					if isElem(a) {
+						callees[cal] = append(callees[cal], p.Pos(instrPos(cs)))
+						break
+					}
+				}
+			}
+			if len(callees) == 0 {
+				continue
+			}
+			inL := false
+			for _, cs := range callsIn(fn) {
+				if inLoop(cs.Block()) {
+					inL = true
+				}
+			}
+			if !inL {
+				continue
+			}
+			n++
+			var ds []string
+			for cal, at := range callees {
+				ds = append(ds, fmt.Sprintf("%s (%s)", shortName(cal), strings.Join(at, ", ")))
+			}
+			sort.Strings(ds)
+			r.Check(len(callees) == 1, rule, "same-printer:"+shortName(fn)+":"+prm.Name(), p.FuncPos(fn), "every element of "+prm.Name()+" is rendered by "+strings.Join(ds, ""),
+				"the elements of "+prm.Name()+" are rendered by different printers: "+strings.Join(ds, "; ")+": the first element and the following ones do not come out in the same form, so a list value is not preserved")
+		}
+	}
+	if n == 0 {
+		r.Unk(rule, "same-printer", "-", "no list writer found on the print tree")
+	}
+}
+
+// indexFoundTests: the "found" test of a search result. strings/bytes Index* return -1 for "absent" and a position
+// >= 0 otherwise; a test that splits the result anywhere else (r > 0, r <= 0, r >= 1, r < 1) treats a match at
+// position 0 as "absent" unless the function tests r against 0 separately.
+func indexFoundTests(c *Ctx, p *Prog, fns []*ssa.Function, rule string) {
+	r := c.R
+	n := 0
+	for _, fn := range fns {
+		for _, cs := range callsIn(fn) {
+			call, ok := cs.(*ssa.Call)
+			if !ok {
+				continue
+			}
+			cal := calleeOf(cs)
+			if cal == nil || cal.Pkg == nil || (cal.Pkg.Pkg.Path() != "strings" && cal.Pkg.Pkg.Path() != "bytes") {
+				continue
+			}
+			if !strings.HasPrefix(cal.Name(), "Index") && !strings.HasPrefix(cal.Name(), "LastIndex") {
+				continue
+			}
+			var tests []string
+			bad, zeroTest := "", false
+			for _, ref := range *call.Referrers() {
+				bo, ok := ref.(*ssa.BinOp)
+				if !ok {
+					continue
+				}
+				op := bo.Op
+				switch op {
+				case token.EQL, token.NEQ, token.LSS, token.LEQ, token.GTR, token.GEQ:
+				default:
+					continue
+				}
+				var k int64
+				var isC bool
+				if bo.X == ssa.Value(call) {
+					k, isC = constInt(bo.Y)
+				} else {
+					k, isC = constInt(bo.X)
+					switch op {
+					case token.LSS:
+						op = token.GTR
+					case token.LEQ:
+						op = token.GEQ
+					case token.GTR:
+						op = token.LSS
+					case token.GEQ:
+						op = token.LEQ
+					}
+				}
+				if !isC {
+					continue
+				}
+				tests = append(tests, fmt.Sprintf("r %s %d", op, k))
+				switch {
+				case k == 0 && (op == token.EQL || op == token.NEQ):
+					zeroTest = true
+				case (k == 0 && (op == token.GTR || op == token.LEQ)) || (k == 1 && (op == token.GEQ || op == token.LSS)):
+					bad = fmt.Sprintf("r %s %d at %s", op, k, p.Pos(instrPos(bo)))
+				}
+			}
+			if len(tests) == 0 {
+				continue
+			}
+			n++
+			key := fmt.Sprintf("found-test:%s:%s#%d", shortName(fn), cal.Name(), ordinalOfCall(fn, call))
+			sort.Strings(tests)
+			r.Check(bad == "" || zeroTest, rule, key, p.Pos(instrPos(call)), "the result of "+cal.Name()+" is split at the absent/found boundary ("+strings.Join(tests, ", ")+")",
+				"the result of "+cal.Name()+" is tested with "+bad+": a match at position 0 is handled as if nothing was found")
+		}
+	}
+	if n == 0 {
+		r.Unk(rule, "found-test", "-", "no tested search result found in the functions given")
+	}
+}
+
+// ordinalOfCall: the position of a call among the calls of the same callee in fn (a line-independent key).
+func ordinalOfCall(fn *ssa.Function, call *ssa.Call) int {
+	n := 0
+	for _, cs := range callsIn(fn) {
+		if calleeOf(cs) != nil && calleeOf(cs) == calleeOf(call) {
+			n++
+			if cs == ssa.CallInstruction(call) {
+				return n
+			}
+		}
+	}
+	return 0
+}
+
+// natLoop: the innermost natural loop that contains block b (nil when b is in no loop).
+func natLoop(b *ssa.BasicBlock) (header *ssa.BasicBlock, blocks map[*ssa.BasicBlock]bool) {
+	fn := b.Parent()
+	for _, h := range fn.Blocks {
+		if !h.Dominates(b) {
+			continue
+		}
+		// back edges t -> h
+		body := map[*ssa.BasicBlock]bool{h: true}
+		var stack []*ssa.BasicBlock
+		for _, t := range h.Preds {
+			if h.Dominates(t) && !body[t] {
+				body[t] = true
+				stack = append(stack, t)
+			}
+		}
+		if len(stack) == 0 && !func() bool {
+			for _, t := range h.Preds {
+				if t == h {
+					return true
+				}
+			}
+			return false
+		}() {
+			continue
+		}
+		for len(stack) > 0 {
+			x := stack[len(stack)-1]
+			stack = stack[:len(stack)-1]
+			for _, pr := range x.Preds {
+				if !body[pr] {
+					body[pr] = true
+					stack = append(stack, pr)
+				}
+			}
+		}
+		if !body[b] {
+			continue
+		}
+		if blocks == nil || len(body) < len(blocks) {
+			header, blocks = h, body
+		}
+	}
+	return
+}
+
+// fullTraversal: the loop around the per-element action `anchor` visits every element: its only exit is the loop
+// header's "no more elements" edge. An edge from the body to outside the loop (break, return, goto) that is not an
+// explicit panic ends the traversal early, so the elements after it are not handled.
+func fullTraversal(c *Ctx, p *Prog, rule, key string, anchor ssa.Instruction, what string) {
+	r := c.R
+	h, body := natLoop(anchor.Block())
+	if h == nil {
+		r.Bad(rule, key, p.Pos(instrPos(anchor)), "%s is not inside a loop over the elements", what)
+		return
+	}
+	var exits []string
+	natural := 0
+	for b := range body {
+		for _, s := range b.Succs {
+			if body[s] {
+				continue
+			}
+			if b == h {
+				natural++
+				continue
+			}
+			if _, isPanic := s.Instrs[len(s.Instrs)-1].(*ssa.Panic); isPanic {
+				continue
+			}
+			exits = append(exits, p.Pos(instrPos(b.Instrs[len(b.Instrs)-1])))
+		}
+		if _, isRet := b.Instrs[len(b.Instrs)-1].(*ssa.Return); isRet {
+			exits = append(exits, p.Pos(instrPos(b.Instrs[len(b.Instrs)-1])))
+		}
+	}
+	sort.Strings(exits)
+	r.Check(len(exits) == 0 && natural == 1, rule, key, p.Pos(instrPos(anchor)), "the loop around "+what+" ends only when the elements are exhausted",
+		fmt.Sprintf("the loop around %s can be left early (at %s; natural exits %d): the elements after that point are silently skipped", what, strings.Join(exits, ", "), natural))
+}
+
+// sortedTree: the functions of the print tree in a stable order.
+func sortedTree(p *Prog, m *Model) []*ssa.Function {
+	var fns []*ssa.Function
+	for fn := range printTree(p, m) {
+		fns = append(fns, fn)
+	}
+	sort.Slice(fns, func(i, j int) bool { return shortName(fns[i]) < shortName(fns[j]) })
+	return fns
+}
+
+// attrsTraversal: serializeAttrs handles every member of the list it prints.
+func attrsTraversal(c *Ctx, p *Prog, rule string) {
+	r := c.R
+	sa := p.Func(p.Slog, "serializeAttrs")
+	if sa == nil {
+		r.Unk(rule, "traversal:serializeAttrs", "-", "serializeAttrs not found")
+		return
+	}
+	var anchor ssa.Instruction
+	for _, cs := range callsIn(sa) {
+		if invokeName(cs) == "Key" && inLoop(cs.Block()) {
+			anchor = cs
+			break
+		}
+	}
+	if anchor == nil {
+		r.Unk(rule, "traversal:serializeAttrs", p.FuncPos(sa), "no per-member Key() call inside a loop")
+		return
+	}
+	fullTraversal(c, p, rule, "traversal:serializeAttrs", anchor, "the per-attribute printer")
+}
+
+// ctxKeysTraversal: fromCtx consults the context for every registered key.
+func ctxKeysTraversal(c *Ctx, p *Prog, rule string) {
+	r := c.R
+	fc := p.Method(p.Slog, "Entry", "fromCtx")
+	if fc == nil {
+		r.Unk(rule, "traversal:Entry.fromCtx", "-", "fromCtx not found")
+		return
+	}
+	n := 0
+	for _, cs := range callsIn(fc) {
+		if invokeName(cs) == "Value" && inLoop(cs.Block()) {
+			n++
+			fullTraversal(c, p, rule, fmt.Sprintf("traversal:Entry.fromCtx#%d", n), cs, "the context lookup of a registered key")
+		}
+	}
+	if n == 0 {
+		r.Unk(rule, "traversal:Entry.fromCtx", p.FuncPos(fc), "no ctx.Value lookup inside a loop over the registered keys")
+	}
+}
+
+// pathRulesTraversal: every registered path mapping (prefix table and regexp list) is tried on a file name.
+func pathRulesTraversal(c *Ctx, p *Prog, rule string) {
+	r := c.R
+	cp := p.Func(p.Slog, "checkpath")
+	if cp == nil {
+		r.Unk(rule, "traversal:checkpath", "-", "checkpath not found")
+		return
+	}
+	n := 0
+	var tree []*ssa.Function
+	for fn := range staticReach([]*ssa.Function{cp}, func(f *ssa.Function) bool { return f.Pkg != p.Slog }) {
+		tree = append(tree, fn)
+	}
+	sort.Slice(tree, func(i, j int) bool { return shortName(tree[i]) < shortName(tree[j]) })
+	for _, fn := range tree {
+		for _, cs := range callsIn(fn) {
+			cal := calleeOf(cs)
+			if cal == nil || !inLoop(cs.Block()) {
+				continue
+			}
+			nme := cal.Name()
+			if (cal.Pkg != nil && cal.Pkg.Pkg.Path() == "regexp" && nme == "ReplaceAllString") || (cal.Pkg != nil && cal.Pkg.Pkg.Path() == "strings" && nme == "ReplaceAll") {
+				n++
+				fullTraversal(c, p, rule, fmt.Sprintf("traversal:checkpath:%s#%d", nme, n), cs, "the replacement of a registered mapping ("+nme+")")
+			}
+		}
+	}
+	if n < 2 {
+		r.Unk(rule, "traversal:checkpath", p.FuncPos(cp), "expected the prefix-table loop and the regexp-list loop, found %d", n)
+	}
+}
+
+// sliceLitConsts: the integer constants stored into the backing array of a slice literal / variadic pack.
+func sliceLitConsts(v ssa.Value) (consts []int64, allConst bool) {
+	sl, ok := v.(*ssa.Slice)
+	if !ok {
+		return nil, false
+	}
+	al, ok := sl.X.(*ssa.Alloc)
+	if !ok {
+		return nil, false
+	}
+	allConst = true
+	for _, ref := range *al.Referrers() {
+		ia, ok := ref.(*ssa.IndexAddr)
+		if !ok {
+			continue
+		}
+		for _, r2 := range *ia.Referrers() {
+			if st, ok := r2.(*ssa.Store); ok {
+				if k, isC := constInt(st.Val); isC {
+					consts = append(consts, k)
+				} else {
+					allConst = false
+				}
+			}
+		}
+	}
+	return
+}
+
+// privacyOnByDefault: "while the privacy-path flag is on (it is by default)": the factory flag word carries
+// Lprivacypath, and the library itself never switches it off (no RemoveFlags / SetFlags call of the package with a
+// constant mask that clears the bit, e.g. in its start-up code for debug or test processes).
+func privacyOnByDefault(c *Ctx, p *Prog, rule string) {
+	r := c.R
+	bit, ok := p.ConstInt(p.Slog, "Lprivacypath")
+	if !ok || bit == 0 {
+		r.Unk(rule, "default:Lprivacypath", "-", "constant Lprivacypath not found")
+		return
+	}
+	flagsG := p.Global(p.Slog, "flags")
+	if flagsG == nil {
+		r.Unk(rule, "default:flags", "-", "package variable flags not found")
+		return
+	}
+	// constant stores to the flag word
+	n := 0
+	for _, fn := range p.RepoFuncs() {
+		if fn.Pkg != p.Slog {
+			continue
+		}
+		for _, b := range fn.Blocks {
+			for _, in := range b.Instrs {
+				st, ok := in.(*ssa.Store)
+				if !ok || st.Addr != ssa.Value(flagsG) {
+					continue
+				}
+				k, isC := constInt(st.Val)
+				if !isC {
+					continue
+				}
+				n++
+				key := fmt.Sprintf("default:%s:flags=%#x", shortName(fn), k)
+				r.Check(k&bit != 0, rule, key, p.Pos(instrPos(st)), "the constant flag word keeps Lprivacypath", fmt.Sprintf("%s sets the flag word to %#x, which lacks Lprivacypath: paths are reported with the home directory and the registered prefixes by default", shortName(fn), k))
+			}
+		}
+		for _, cs := range callsIn(fn) {
+			cal := calleeOf(cs)
+			if cal == nil || cal.Pkg != p.Slog {
+				continue
+			}
+			switch nm(cal) {
+			case "RemoveFlags":
+				ks, _ := sliceLitConsts(cs.Common().Args[0])
+				for _, k := range ks {
+					n++
+					key := fmt.Sprintf("default:%s:RemoveFlags(%#x)", shortName(fn), k)
+					r.Check(k&bit == 0, rule, key, p.Pos(instrPos(cs)), "the library's own RemoveFlags call leaves Lprivacypath set", fmt.Sprintf("%s clears Lprivacypath by itself (RemoveFlags(%#x)): in such processes the flag is not on by default and home directory / registered prefixes are reported in full", shortName(fn), k))
+				}
+			case "SetFlags":
+				if k, isC := constInt(cs.Common().Args[0]); isC {
+					n++
+					key := fmt.Sprintf("default:%s:SetFlags(%#x)", shortName(fn), k)
+					r.Check(k&bit != 0, rule, key, p.Pos(instrPos(cs)), "the library's own SetFlags call keeps Lprivacypath", fmt.Sprintf("%s sets flags %#x without Lprivacypath", shortName(fn), k))
+				}
+			}
+		}
+	}
+	if n == 0 {
+		r.Unk(rule, "default:flags", "-", "no constant initialisation of the flag word found")
+	}
+}
+
+// sliceResultsUsed: the in-package callers of the slice-returning edit functions (append, slices.Delete / Insert /
+// Compact / DeleteFunc ...) keep the result. A dropped result leaves the old length in place (slices.Delete zeroes the
+// vacated tail: a nil entry stays in the list).
+func sliceResultsUsed(c *Ctx, p *Prog, fns []*ssa.Function, rule string) {
+	r := c.R
+	n := 0
+	for _, fn := range fns {
+		for _, b := range fn.Blocks {
+			for _, in := range b.Instrs {
+				call, ok := in.(*ssa.Call)
+				if !ok {
+					continue
+				}
+				name := ""
+				if bi, ok := call.Call.Value.(*ssa.Builtin); ok && bi.Name() == "append" {
+					name = "append"
+				} else if cal := calleeOf(call); cal != nil {
+					o := origin(cal)
+					if o.Pkg != nil && o.Pkg.Pkg.Path() == "slices" {
+						switch o.Name() {
+						case "Delete", "DeleteFunc", "Insert", "Compact", "CompactFunc", "Grow", "Clip", "Replace":
+							name = "slices." + o.Name()
+						}
+					}
+				}
+				if name == "" {
+					continue
+				}
+				n++
+				if len(*call.Referrers()) == 0 {
+					r.Bad(rule, fmt.Sprintf("result-kept:%s:%s", shortName(fn), name), p.Pos(instrPos(call)), "the result of %s is dropped: the list keeps its old length (with a zeroed or stale tail element) instead of the edited one", name)
+				}
+			}
+		}
+	}
+	r.Check(n > 0, rule, "result-kept", "-", fmt.Sprintf("%d list edit(s) (append / slices.*) in the functions given, every result is used", n), "no list edit found in the functions given")
+}
+
+// ---- lock discipline (pairing and self re-entry) ----
+
+type lockSite struct {
+	call ssa.CallInstruction
+	key  string
+	kind string // Lock | RLock
+}
+
+// lockKeyOf names the mutex a Lock/Unlock call works on: the chain of field names from the base type, or the
+// package variable.
+func lockKeyOf(recv ssa.Value) string {
+	var parts []string
+	v := recv
+	for depth := 0; depth < 6; depth++ {
+		switch x := v.(type) {
+		case *ssa.FieldAddr:
+			st := structOf(x.X.Type())
+			name := "?"
+			if st != nil {
+				name = st.Field(x.Field).Name()
+			}
+			parts = append([]string{name}, parts...)
+			v = x.X
+			continue
+		case *ssa.Global:
+			return "var " + x.Name() + "." + strings.Join(parts, ".")
+		case *ssa.UnOp:
+			if x.Op == token.MUL {
+				v = x.X
+				continue
+			}
+		}
+		break
+	}
+	return typeName(v.Type()) + "." + strings.Join(parts, ".")
+}
+
+func lockCallOf(cs ssa.CallInstruction) (key, method string, ok bool) {
+	cal := calleeOf(cs)
+	if cal == nil || cal.Pkg == nil || cal.Pkg.Pkg.Path() != "sync" || cal.Signature.Recv() == nil {
+		return "", "", false
+	}
+	switch cal.Name() {
+	case "Lock", "Unlock", "RLock", "RUnlock":
+	default:
+		return "", "", false
+	}
+	rt := typeName(cal.Signature.Recv().Type())
+	if rt != "Mutex" && rt != "RWMutex" {
+		return "", "", false
+	}
+	return lockKeyOf(cs.Common().Args[0]), cal.Name(), true
+}
+
+// lockDiscipline: (a) every acquisition of a mutex in the package is released on every path to a return (a deferred
+// release, or an explicit one on each path); (b) while a mutex is held no call is made that can come back to an
+// acquisition of the same mutex (the diagnostic the sink logs about a failed Write re-enters the sink).
+func lockDiscipline(c *Ctx, p *Prog, rule string) {
+	r := c.R
+	var sites []lockSite
+	acquirers := map[string]map[*ssa.Function]bool{}
+	for _, fn := range p.RepoFuncs() {
+		for _, cs := range callsIn(fn) {
+			if _, isDefer := cs.(*ssa.Defer); isDefer {
+				continue
+			}
+			if k, mth, ok := lockCallOf(cs); ok && (mth == "Lock" || mth == "RLock") {
+				sites = append(sites, lockSite{cs, k, mth})
+				if acquirers[k] == nil {
+					acquirers[k] = map[*ssa.Function]bool{}
+				}
+				acquirers[k][fn] = true
+			}
+		}
+	}
+	if len(sites) == 0 {
+		r.Ok(rule, "locks", "-", "the package acquires no mutex in this configuration: nothing can be left locked and no call can block on a lock held by its own caller")
+		return
+	}
+	reach := map[*ssa.Function]map[*ssa.Function]bool{}
+	reachOf := func(fn *ssa.Function) map[*ssa.Function]bool {
+		if m, ok := reach[fn]; ok {
+			return m
+		}
+		m := cgReach(p.CHA(), fn)
+		reach[fn] = m
+		return m
+	}
+	for i, s := range sites {
+		fn := s.call.Parent()
+		unl := "Unlock"
+		if s.kind == "RLock" {
+			unl = "RUnlock"
+		}
+		isRelease := func(in ssa.Instruction) bool {
+			cs, ok := in.(ssa.CallInstruction)
+			if !ok {
+				return false
+			}
+			if _, isDefer := cs.(*ssa.Defer); isDefer {
+				return false
+			}
+			k, mth, ok := lockCallOf(cs)
+			return ok && mth == unl && k == s.key
+		}
+		deferred := false
+		// walk forward from the acquisition
+		type pos struct {
+			b *ssa.BasicBlock
+			i int
+		}
+		start := pos{s.call.Block(), 0}
+		for j, in := range s.call.Block().Instrs {
+			if in == ssa.Instruction(s.call) {
+				start.i = j + 1
+			}
+		}
+		seen := map[*ssa.BasicBlock]bool{}
+		var held []ssa.CallInstruction
+		leak := ""
+		var walk func(b *ssa.BasicBlock, from int)
+		walk = func(b *ssa.BasicBlock, from int) {
+			for j := from; j < len(b.Instrs); j++ {
+				in := b.Instrs[j]
+				if d, ok := in.(*ssa.Defer); ok {
+					if k, mth, ok := lockCallOf(d); ok && mth == unl && k == s.key {
+						deferred = true
+					}
+					continue
+				}
+				if isRelease(in) {
+					return
+				}
+				if cs, ok := in.(ssa.CallInstruction); ok {
+					held = append(held, cs)
+				}
+				if _, ok := in.(*ssa.Return); ok && !deferred && leak == "" {
+					leak = p.Pos(instrPos(in))
+					if leak == "-" || leak == "" {
+						leak = "the return of block " + b.String()
+					}
+				}
+			}
+			for _, nx := range b.Succs {
+				if !seen[nx] {
+					seen[nx] = true
+					walk(nx, 0)
+				}
+			}
+		}
+		walk(start.b, start.i)
+		key := fmt.Sprintf("lock:%s:%s#%d", shortName(fn), s.key, i)
+		if leak != "" && !deferred {
+			r.Bad(rule, key+"[release]", p.Pos(instrPos(s.call)), "%s of %s is not released on the path that returns at %s: after that return every later acquisition blocks forever", s.kind, s.key, leak)
+		} else {
+			r.Ok(rule, key+"[release]", p.Pos(instrPos(s.call)), "released on every path (deferred: %v)", deferred)
+		}
+		var reent []string
+		for _, cs := range held {
+			var targets []*ssa.Function
+			if cal := calleeOf(cs); cal != nil {
+				targets = append(targets, cal)
+			} else if cs.Common().IsInvoke() {
+				// the package's own implementations of the invoked method
+				if n := p.CHA().Nodes[fn]; n != nil {
+					for _, e := range n.Out {
+						if e.Site == cs && e.Callee.Func.Pkg != nil && e.Callee.Func.Pkg == p.Slog {
+							targets = append(targets, e.Callee.Func)
+						}
+					}
+				}
+			}
+			for _, t := range targets {
+				if t.Pkg == nil || t.Pkg.Pkg.Path() == "sync" {
+					continue
+				}
+				hit := acquirers[s.key][t]
+				if !hit {
+					for g := range reachOf(t) {
+						if acquirers[s.key][g] {
+							hit = true
+							break
+						}
+					}
+				}
+				if hit && !(s.kind == "RLock") {
+					reent = append(reent, fmt.Sprintf("%s at %s", shortName(t), p.Pos(instrPos(cs))))
+				}
+			}
+		}
+		sort.Strings(reent)
+		r.Check(len(reent) == 0, rule, key+"[re-entry]", p.Pos(instrPos(s.call)), "no call made while the mutex is held can come back to an acquisition of it",
+			fmt.Sprintf("while %s is held the function calls %s, which can reach an acquisition of the same non-reentrant mutex: the calling goroutine blocks on itself and every other user of the mutex queues up behind it", s.key, strings.Join(dedupStr(reent), "; ")))
+	}
+}
+
+// namedArgsInPlace: when a function hands its own parameters on to a package function whose parameters carry the same
+// names, each goes to its namesake: a parameter P of the caller that is passed in the call, while the callee's
+// parameter called P receives a different parameter of the caller, is a swapped argument pair (both have the same
+// type, so the compiler is silent).
+func namedArgsInPlace(c *Ctx, p *Prog, fns []*ssa.Function, rule string) {
+	r := c.R
+	n := 0
+	for _, fn := range fns {
+		for _, cs := range callsIn(fn) {
+			cal := calleeOf(cs)
+			if cal == nil || cal.Pkg != p.Slog || len(cal.Params) != len(cs.Common().Args) {
+				continue
+			}
+			args := cs.Common().Args
+			passedAt := map[string][]int{}
+			var recvP *ssa.Parameter
+			if fn.Signature.Recv() != nil && len(fn.Params) > 0 {
+				recvP = fn.Params[0]
+			}
+			for i, a := range args {
+				if prm, ok := a.(*ssa.Parameter); ok && prm.Parent() == fn && prm != recvP {
+					passedAt[prm.Name()] = append(passedAt[prm.Name()], i)
+				}
+			}
+			if len(passedAt) < 2 {
+				continue
+			}
+			var probs []string
+			match := 0
+			for j, cp := range cal.Params {
+				if j == 0 && cal.Signature.Recv() != nil {
+					continue
+				}
+				at, ok := passedAt[cp.Name()]
+				if !ok {
+					continue
+				}
+				inPlace := false
+				for _, i := range at {
+					if i == j {
+						inPlace = true
+					}
+				}
+				if inPlace {
+					match++
+					continue
+				}
+				if ap, ok := args[j].(*ssa.Parameter); ok && ap != recvP && types.Identical(ap.Type(), cp.Type()) {
+					probs = append(probs, fmt.Sprintf("%s's parameter %q receives the caller's %q while the caller's %q goes to position %d", shortName(cal), cp.Name(), ap.Name(), cp.Name(), at[0]))
+				}
+			}
+			if match == 0 && len(probs) == 0 {
+				continue
+			}
+			n++
+			key := fmt.Sprintf("args:%s->%s#%d", shortName(fn), shortName(cal), ordinalOfCallI(fn, cs))
+			r.Check(len(probs) == 0, rule, key, p.Pos(instrPos(cs)), "same-named parameters are passed to their namesakes", strings.Join(probs, "; ")+": the two values change roles (e.g. key prefix and key name)")
+		}
+	}
+	if n == 0 {
+		r.Unk(rule, "args", "-", "no call passing same-named parameters found")
+	}
+}
+
+func ordinalOfCallI(fn *ssa.Function, call ssa.CallInstruction) int {
+	n := 0
+	for _, cs := range callsIn(fn) {
+		if calleeOf(cs) != nil && calleeOf(cs) == calleeOf(call) {
+			n++
+			if cs == call {
+				return n
+			}
+		}
+	}
+	return 0
+}
